@@ -78,7 +78,7 @@ def build(flavour="plain", quiet=True):
     if os.path.isdir(BUILD_ROOT):
         olds = sorted((d for d in os.listdir(BUILD_ROOT) if d.startswith(flavour + "-") and d != tag and ".tmp" not in d),
                       key=lambda d: os.path.getmtime(os.path.join(BUILD_ROOT, d)), reverse=True)
-        for d in olds[4:]:
+        for d in olds[12:]:
             shutil.rmtree(os.path.join(BUILD_ROOT, d), ignore_errors=True)
     tmp = out + ".tmp%d" % os.getpid()
     os.makedirs(tmp, exist_ok=True)
